@@ -166,15 +166,32 @@ def run(chk):
     from ombott.request_pkg.multipart import MultipartMarkup
     for i in range(12 if thorough else 3):
         boundary, body = gen_upload(rng, rng.choice([20000, 120000, 400000]))
+        if i == 0:
+            # a large file first, then further parts: their headers lie tens of kilobytes behind the start of the section
+            # that is open when a read ends inside them
+            boundary = b'BigFirst'
+            body = mplib.encode_form([{'name': 'big', 'filename': 'big.bin', 'ctype': 'application/octet-stream', 'data': mplib.nasty_bytes(rng, 40000, boundary)},
+                                      {'name': 'note', 'value': 'after the big one'},
+                                      {'name': 'small', 'filename': 's.txt', 'ctype': 'text/plain', 'data': b'tiny'}], boundary)
         one = MultipartMarkup(boundary)
         one.parse(body)
         ref = mplib.result(one)
         n = len(body)
+        # a read that ends inside the delimiter line or the header block of a LATER part (tens of kilobytes into the body)
+        later = []
+        pos = body.find(b'\r\n--' + boundary, 1)
+        while pos > 0 and len(later) < 40:
+            for k in (1, 3, len(boundary) + 5, len(boundary) + 12, len(boundary) + 30, len(boundary) + 60):
+                if pos + k < n:
+                    later.append([pos + k, n - pos - k])
+            pos = body.find(b'\r\n--' + boundary, pos + 1)
         for buf in [100 * 1024, 65536, 8192, 4096, 1000, 333]:
             cuts = [[buf] * (n // buf) + ([n % buf] if n % buf else [])]
             for _ in range(4):
                 c = rng.randint(1, n - 1)
                 cuts.append([c, n - c])
+            if buf == 4096:
+                cuts += later
             for ks in cuts:
                 m = MultipartMarkup(boundary)
                 pos = 0
